@@ -5,6 +5,7 @@ from the AST by the property text (independent of Scenic and of the Coq model)."
 from fractions import Fraction
 
 W = [1, 1, 2, 3, Fraction(1, 2), Fraction(1, 4), Fraction(3, 2)]
+W0 = W + [0, 0]          # weights of dict-form choose/shuffle and of run-time Options: zero allowed
 
 
 def wtxt(w):
@@ -34,41 +35,63 @@ def guard_ok(g, t):
 
 
 def source(prog):
-    L = []
-    nb = len(prog["behaviors"])
+    """form 'behavior': every invocable is a behaviour of the ego (actions observed);
+    form 'compose': every invocable is a modular scenario with a compose block (sub-scenarios invoked by
+    do / do choose / do shuffle from the compose block of Main); `take a` becomes a log call + `wait`."""
+    comp = prog.get("form", "behavior") == "compose"
+    N = "S" if comp else "B"
+    ind = "        " if comp else "    "
+    now = "simulation().currentTime"
+    L = ["import verif_c19_helpers as H"] if comp else []
+
+    def take(expr):
+        if comp:
+            return [f"{ind}H.log({now}, {expr})", f"{ind}wait"]
+        return [f"{ind}take {expr}"]
     for i, b in enumerate(prog["behaviors"]):
-        L.append(f"behavior B{i}():")
+        main = comp and i == prog["main"]
+        L.append(f"scenario {'Main' if main else N + str(i)}():" if comp else f"behavior B{i}():")
         gs = guard_src(b["pre"])
         if gs:
             L.append(f"    precondition: {gs}")
+        if comp:
+            L.append("    compose:")
         if not b["body"]:
-            L.append("    pass")
+            L.append(f"{ind}pass")
         for st in b["body"]:
             k = st[0]
             if k == "take":
-                L.append(f"    take {st[1]}")
+                L += take(st[1])
             elif k == "draw":
-                L.append(f"    x = DiscreteRange({st[1]}, {st[2]})")
-                L.append(f"    take {st[3]} + x")
+                L.append(f"{ind}x = DiscreteRange({st[1]}, {st[2]})")
+                L += take(f"{st[3]} + x")
             elif k == "wdraw":
-                L.append("    x = Options({" + ", ".join(f"{j}: {wtxt(w)}" for j, w in enumerate(st[1])) + "})")
-                L.append(f"    take {st[2]} + x")
+                L.append(f"{ind}x = Options({{" + ", ".join(f"{j}: {wtxt(w)}" for j, w in enumerate(st[1])) + "})")
+                L += take(f"{st[2]} + x")
             elif k == "req":
                 p = Fraction(st[1])
-                L.append(("    require" if p >= 1 else f"    require[{wtxt(p)}]") + f" x > {st[2]}")
+                L.append((f"{ind}require" if p >= 1 else f"{ind}require[{wtxt(p)}]") + f" x > {st[2]}")
             elif k == "do":
-                L.append(f"    do B{st[1]}()")
+                L.append(f"{ind}do {N}{st[1]}()")
             elif k in ("choose", "shuffle"):
                 if st[2]:
-                    L.append(f"    do {k} {{" + ", ".join(f"B{b_}(): {wtxt(w)}" for b_, w in st[1]) + "}")
+                    L.append(f"{ind}do {k} {{" + ", ".join(f"{N}{b_}(): {wtxt(w)}" for b_, w in st[1]) + "}")
                 else:
-                    L.append(f"    do {k} " + ", ".join(f"B{b_}()" for b_, _ in st[1]))
-    L.append(f"ego = new Object with behavior B{prog['main']}()")
+                    L.append(f"{ind}do {k} " + ", ".join(f"{N}{b_}()" for b_, _ in st[1]))
+    if not comp:
+        L.append(f"ego = new Object with behavior B{prog['main']}()")
     return "\n".join(L) + "\n"
 
 
+def step_limit(prog):
+    """Statements run while currentTime < step_limit.  Behaviours are not resumed once currentTime reaches
+    maxSteps; compose blocks are stepped BEFORE the simulator's time-limit test (Simulation._run), so the code
+    of a compose block still runs (up to its next `wait`) at currentTime == maxSteps."""
+    return prog["maxSteps"] + (1 if prog.get("form", "behavior") == "compose" else 0)
+
+
 def driver_line(prog):
-    t = ["RUN", str(prog["maxSteps"]), str(len(prog["behaviors"]))]
+    t = ["RUN", str(step_limit(prog)), str(len(prog["behaviors"]))]
     for b in prog["behaviors"]:
         t += [str(x) for x in b["pre"]]
         t.append(str(len(b["body"])))
@@ -93,10 +116,17 @@ def driver_line(prog):
 
 
 # ------------------------------------------------------------------ specification
-def spec_distribution(prog):
-    """{outcome: probability}; outcome 'REJ' or 't:a,...'.  Continuation-passing over the AST."""
+def spec_distribution(prog, stats=None):
+    """{outcome: probability}; outcome 'REJ' or 't:a,...'.  Continuation-passing over the AST.
+    Conventions where the property text is silent: a single eligible item is run whatever its weight; two or
+    more eligible items whose weights are all zero admit no weight-proportional pick: rejection (so does a
+    run-time Options whose weights are all zero).  stats: optional dict counting the kinds of picks met."""
     B = prog["behaviors"]
-    maxs = prog["maxSteps"]
+    stats = {} if stats is None else stats
+
+    def stat(k):
+        stats[k] = stats.get(k, 0) + 1
+    maxs = step_limit(prog)
     out = {}
 
     def emit(key, p):
@@ -110,11 +140,35 @@ def spec_distribution(prog):
         """items [(pos, beh, w)]; continue with the picked item, weight-proportional among enabled"""
         en = [it for it in items if guard_ok(B[it[1]]["pre"], t)]
         if not en:
+            stat("pick:none-eligible")
             emit("REJ", p)
             return
-        tot = sum(Fraction(it[2]) for it in en)
+        if len(en) == 1:
+            stat("pick:one-eligible")
+            return k(en[0], p)
+        stat("pick:several-eligible")
+        ws = [Fraction(it[2]) for it in en]
+        if len(en) < len(items):
+            stat("pick:some-ineligible")
+            first_ok = min(i for i, it in enumerate(items) if it in en)
+            last_ok = max(i for i, it in enumerate(items) if it in en)
+            if any(it not in en for it in items[first_ok + 1:last_ok]) or first_ok > 0:
+                stat("pick:ineligible-before-eligible")
+                if len(set(ws)) > 1:
+                    stat("pick:ineligible-before-eligible,unequal-weights")
+        if any(w == 0 for w in ws):
+            stat("pick:zero-weight-eligible")
+            zi = min(i for i, w in enumerate(ws) if w == 0)
+            if any(w > 0 for w in ws[zi + 1:]):
+                stat("pick:zero-weight-before-positive")
+        tot = sum(ws)
+        if tot == 0:
+            stat("pick:all-eligible-weights-zero")
+            emit("REJ", p)
+            return
         for it in en:
-            k(it, p * Fraction(it[2]) / tot)
+            if it[2]:
+                k(it, p * Fraction(it[2]) / tot)
 
     def run(stmts, state, p, k):
         if not stmts:
@@ -137,6 +191,10 @@ def spec_distribution(prog):
             return
         if kind == "wdraw":
             tot = sum(Fraction(w) for w in st[1])
+            if any(w == 0 for w in st[1]):
+                stat("wdraw:zero-weight")
+            if tot == 0:
+                return emit("REJ", p)
             for v, w in enumerate(st[1]):
                 if w:
                     cont((t + 1, v, log + [(t, st[2] + v)]), p * Fraction(w) / tot)
@@ -171,7 +229,8 @@ def spec_distribution(prog):
 
 
 # ------------------------------------------------------------------ generator
-def gen_program(rng):
+def gen_program(rng, form=None):
+    form = form or rng.choice(["behavior", "compose"])
     nleaf = rng.randint(2, 4)
     behs = []
     for i in range(nleaf):
@@ -188,14 +247,14 @@ def gen_program(rng):
                 if rng.random() < 0.4:
                     body.append(["req", rng.choice([Fraction(1), Fraction(1, 2), Fraction(1, 4)]), lo])
             else:
-                body.append(["wdraw", [rng.choice(W) for _ in range(rng.randint(2, 3))], 100 * (i + 1) + 50])
+                body.append(["wdraw", [rng.choice(W0) for _ in range(rng.randint(2, 3))], 100 * (i + 1) + 50])
         behs.append(dict(pre=g, body=body))
 
     def options(pool, lo=2):
         n = rng.randint(lo, min(4, max(lo, len(pool))))
         picks = [rng.choice(pool) for _ in range(n)]
         weighted = rng.random() < 0.6
-        return [[b, rng.choice(W) if weighted else 1] for b in picks], weighted
+        return [[b, rng.choice(W0) if weighted else 1] for b in picks], weighted
 
     def block(pool, depth):
         body = []
@@ -227,7 +286,7 @@ def gen_program(rng):
             behs.append(dict(pre=g, body=block(list(range(nleaf)), 1)))
         pool = list(range(len(behs)))
     behs.append(dict(pre=["T"], body=block(pool, 0)))
-    return dict(behaviors=behs, main=len(behs) - 1, maxSteps=rng.randint(3, 7))
+    return dict(behaviors=behs, main=len(behs) - 1, maxSteps=rng.randint(3, 7), form=form)
 
 
 def to_json(prog):
